@@ -170,6 +170,8 @@ def run(chk):
     dis_all += d
     d, _, _ = chk.differential("strip", ["strip " + G.hexs(G.gen_strip_text(rng)) for _ in range(1500 if quick else 30000)])
     dis_all += d
+    d, _, _ = chk.differential("blank", ["blank " + G.hexs(G.gen_blank_text(rng)) for _ in range(2500 if quick else 40000)])
+    dis_all += d
     texts = [G.gen_macro_text(rng) for _ in range(1500 if quick else 30000)]
     d, _, _ = chk.differential("mdefs", ["mdefs " + G.hexs(t) for t in texts])
     dis_all += d
@@ -260,7 +262,7 @@ def run(chk):
         "_extract_project_dates; the check fails if they differ from what the request states)",
         "macro texts are ASCII; dates that datetime.strptime rejects are skipped (crash class belongs to C11)",
         "text moved into macros never contains the project header, brackets, `$`, or block-comment delimiters (open finding F39 "
-        "covers the header); generated comments never contain `${` or a macro definition (open finding F38)",
+        "covers the header); generated comments contain macro definitions, macro calls and project headers (F38, repaired: comments are blanked first)",
         "one scenario; dependency lists are observed before attribute inheritance in the deps stream"]
     if found:
         chk.cov["samples"].append({"stream": "spellings", "what": found[0][0]})
